@@ -53,14 +53,14 @@ package server
 //@   at-call invoke net.PacketConn.WriteTo assert [C19:dst] recv == conn && arg1 == dst
 //@   ensures [C19:one-write] forall c :: c != conn ==> pktWrites[c] == old(pktWrites[c])
 //@   ensures [C19:at-most-one] pktWrites[conn] <= old(pktWrites[conn]) + 1
-//@   assigns pktWrites
+//@   assigns pktWrites, pktWriteFails
 
 //@ func buildAndSendErr
 //@   requires conn != nil
 //@   ensures [C19:one-write] forall c :: c != conn ==> pktWrites[c] == old(pktWrites[c])
 //@   ensures [C19:at-most-one] pktWrites[conn] <= old(pktWrites[conn]) + 1
 //@   ensures err != nil ==> res != nil
-//@   assigns pktWrites
+//@   assigns pktWrites, pktWriteFails
 
 //@      // ---- long-term credential check (C03)
 //@ spec func presentedUser(m *stun.Message) string = attrText(m, stun.AttrUsername)
@@ -82,7 +82,7 @@ package server
 //@   ensures [C03:silent-success] hasAuth ==> pktWrites == old(pktWrites)
 //@   ghost-set authOK = hasAuth
 //@   ghost-set authUser = username when hasAuth
-//@   assigns pktWrites, authOK, authUser, lastMinted
+//@   assigns pktWrites, pktWriteFails, authOK, authUser, lastMinted
 //@   fresh authOK
 
 //@ func invoke github.com/pion/turn/v5/internal/server.NonceManager.Validate
